@@ -3312,7 +3312,14 @@ class Group(System):
 
             if wrt not in wrt_seen:
                 wrt_seen.add(wrt)
-                approx.add_approximation(wrt, self, meta)
+                # The options of this approximation are the ones given to approx_totals.  What a
+                # component declared for its own approximation of the same (of, wrt) pair (its
+                # metadata is shared here) does not apply to the group's.
+                opts = {k: v for k, v in meta.items()
+                        if k not in ('step', 'form', 'step_calc', 'minimum_step', 'order',
+                                     'directional')}
+                opts.update(self._owns_approx_jac_meta)
+                approx.add_approximation(wrt, self, opts)
 
         if not total:
             # we're taking semi-total derivs for this group. Update _owns_approx_of
